@@ -22,14 +22,14 @@ RULE = ('generated tagged BAMs (1-3 contigs, 1-4 cells, read-1/read-2/single-end
         'within 1 bp of a job boundary of the split; distinct = distinct (BAM seed, bin size, bins_per_job, threads, key tags).')
 ASSUMPTIONS = ['max_fragment_size >= distance between a read and its DS site (the fetch margin must cover it)',
                'get_binned_counts applies its documented default filter (read 1, not duplicate, not qc-fail, DS present) without MAPQ / mp']
-MIN_NONTRIVIAL = {'quick': 150, 'thorough': 2000}
+MIN_NONTRIVIAL = {'quick': 150, 'thorough': 8000}
 REQUIRED_MONITORS = ['ret:obtain_counts', 'ret:get_binned_counts', 'oracle:matrix_cells_compared', 'splits:compared', 'lib:non_proper_pairs',
                      'lib:sites_on_job_boundary']
 SHARD_TIMEOUT = {'quick': 900, 'thorough': 5400}
 
 
 def gen_cases(tier, seed):
-    n = 48 if tier == 'quick' else 480
+    n = 48 if tier == 'quick' else 1600
     return [{'i': i, 'seed': seed} for i in range(n)]
 
 
